@@ -102,6 +102,7 @@ func scenC10(e *Env) func() {
 func c10Server(e *Env, p *c10Plan) {
 	s := &fasthttp.Server{DisableKeepalive: p.DisableKA, MaxRequestsPerConn: p.MaxReqs, CloseOnShutdown: p.CloseOnShutdown, IdleTimeout: 10 * time.Minute, StreamRequestBody: p.StreamReq}
 	k := NewServerKit(e, s)
+	k.SkipBody = true // the kit must not read the body on the handler's behalf
 	k.Handle = func(ctx *fasthttp.RequestCtx, inv *Inv) {
 		switch string(ctx.Request.Header.Peek("X-Handler")) {
 		case "setclose":
